@@ -10,7 +10,7 @@ Import ListNotations.
    place_named (the member the instruction names, else the own name) of a named counterpart, or to
    the running position of a positional one; nothing for a unit counterpart *)
 Theorem C01_line_out : forall f c hint idx,
-    plain_field f c -> is_from (c_kind c) = false -> ~ f03b_cell f c hint ->
+    plain_field f c -> is_from (c_kind c) = false ->
     render_struct_line f c hint idx None = spec_line_out f c hint idx.
 Proof. exact line_out. Qed.
 Print Assumptions C01_line_out.
